@@ -1,5 +1,6 @@
-(** Correspondence + monitor entry points for node accounting (C14; reused by C01/C02). *)
-From KaiV Require Export Run.Prelude Model.Res Model.Status Model.AMap Model.Node Model.NodeSpec Run.NodeObs.
+(** Correspondence + monitor entry points for C14: node accounting (first part; reused by C01/C02)
+    and workload (pod group / pod set) accounting (second part, Model/JobBooks.v). *)
+From KaiV Require Export Run.Prelude Model.Res Model.Status Model.AMap Model.Node Model.NodeSpec Run.NodeObs Model.JobBooks.
 Open Scope Z_scope.
 
 Inductive nop :=
@@ -18,7 +19,7 @@ Record probe := mkProbe {
 
 Record step := mkStep { s_op : nop; s_err : bool; s_obs : obs; s_probes : list probe }.
 
-Record case := mkCase { k_init : node; k_sessionlike : bool; k_steps : list step }.
+Record ncase := mkCase { k_init : node; k_sessionlike : bool; k_steps : list step }.
 
 Definition apply_op (n : node) (o : nop) : result node :=
   match o with
@@ -46,7 +47,7 @@ Fixpoint steps_agree (n : node) (ss : list step) : bool :=
       end
   end.
 
-Definition model_agrees (k : case) : bool := steps_agree (k_init k) (k_steps k).
+Definition nmodel_agrees (k : ncase) : bool := steps_agree (k_init k) (k_steps k).
 
 (** ** Monitor: the real node's books against the ground truth recomputed
     from the pods it holds (spec in Model/NodeSpec.v). The monitor keeps its own
@@ -110,9 +111,199 @@ Fixpoint steps_monitor (init : node) (sl : bool) (mode : nat) (tbl : amap task) 
       (here && ok, manifested || m)
   end.
 
-Definition monitor_ok (k : case) : bool := fst (steps_monitor (k_init k) (k_sessionlike k) 0 [] [] (k_steps k)).
+Definition nmonitor_ok (k : ncase) : bool := fst (steps_monitor (k_init k) (k_sessionlike k) 0 [] [] (k_steps k)).
 (** flag 1: the device-guard quirk changed the whole-GPU books (known finding C14-device-guard) *)
-Definition flags (k : case) : list nat := if snd (steps_monitor (k_init k) (k_sessionlike k) 0 [] [] (k_steps k)) then [1%nat] else [].
+Definition nflags (k : ncase) : list nat := if snd (steps_monitor (k_init k) (k_sessionlike k) 0 [] [] (k_steps k)) then [1%nat] else [].
+
+(** * Workload accounting: PodGroupInfo / PodSet (Model/JobBooks.v)
+
+    A job case is a history of observations of real PodGroupInfo objects: after every operation the driver
+    dumps what the scheduler BELIEVES about the workload (every exported counter, getter and gang predicate of
+    job_info.go and subgroup_info/podset.go, PodStatusIndex member by member) next to the pods it holds and their
+    statuses.  Three kinds of histories share the format:
+      - operation programs on one PodGroupInfo ([js_ops = Some os]: AddTaskInfo / UpdateTaskStatus with the
+        passed status explicit, every status pair; CloneWithTasks);
+      - real Statement programs on a real session (Pipeline / Allocate / Evict / Unevict / Checkpoint /
+        Rollback / Discard / Commit / ConvertAllAllocatedToPipelined, common.AllocateJob with its own
+        checkpoints and rollbacks): one observation of the affected job inside every allocate / deallocate
+        event (i.e. after every primitive and every undo of it) and one of all jobs after every command;
+      - the real actions (allocate, consolidation, reclaim, preempt, stalegangeviction) on generated
+        clusters, observed the same way, so that every simulation step of the scenario solvers is seen.
+    For the last two [js_ops = None]: the model is driven by the status changes read off the pods of two
+    consecutive observations of a job ([diff_ops]).
+
+    [jmodel_agrees]: the model's incremental counters follow the real ones (correspondence).
+    [jmonitor_ok]: every dumped belief equals its recomputation from the dumped pods; it reads nothing of
+    the model's transition functions.  A failure is a concrete violation of C14 on the real objects. *)
+
+Record psdump := mkPSD {
+  pd_min : Z; pd_n : Z;                 (* GetMinAvailable, len(GetPodInfos()) *)
+  pd_aa : Z; pd_au : Z; pd_alive : Z;   (* GetNumActiveAllocatedTasks, GetNumActiveUsedTasks, GetNumAliveTasks *)
+  pd_pending : Z; pd_gated : Z;         (* GetNumPendingTasks, GetNumGatedTasks *)
+  pd_sat : bool; pd_ready : bool; pd_elastic : bool;   (* IsGangSatisfied, IsReadyForScheduling, IsElastic *)
+}.
+
+Record jdump := mkJD {
+  jd_pods : list (positive * status);   (* GetAllPodsMap: uid, Status; sorted by uid *)
+  jd_alloc : res; jd_allocv : res;      (* Allocated, AllocatedVector *)
+  jd_active : Z;                        (* GetActiveAllocatedTasksCount *)
+  jd_idx : list (list positive);        (* PodStatusIndex[s] for the 12 statuses in the order of [all_statuses]; sorted uids *)
+  jd_nums : list Z;                     (* GetNumPendingTasks; GetNumGatedTasks; GetNumActiveUsedTasks; GetNumAllocatedTasks;
+                                           GetNumAliveTasks; GetActivelyRunningTasksCount *)
+  jd_preds : list bool;                 (* IsGangSatisfied; IsReadyForScheduling; IsStale; ShouldPipelineJob; IsElastic *)
+  jd_psets : amap psdump;
+}.
+
+(** what does not change along a history: the pod's job, pod set and request in both representations *)
+Record jstatic := mkJSt { st_job : positive; st_pset : positive; st_req : res; st_reqv : res }.
+
+(** [js_ops = Some os]: the operations that were issued since the previous observation of this job (one
+    AddTaskInfo / UpdateTaskStatus; for CloneWithTasks, which rebuilds the pod group from a subset of its pods, one
+    removal per dropped pod); [None]: read them off the pods ([diff_ops]). [js_err]: an error was returned. *)
+Record jstep := mkJS { js_job : positive; js_ops : option (list jop); js_err : bool; js_dump : jdump }.
+
+Record jcase := mkJCase {
+  jc_monitored : bool;          (* false: a history the scheduler does not issue (stale copy, double add): correspondence only *)
+  jc_mask : res;                (* 1 in the columns the resource vector map has an index for *)
+  jc_mins : amap (amap Z);      (* job -> pod set -> minAvailable *)
+  jc_tbl : amap jstatic;
+  jc_steps : list jstep;
+}.
+
+Definition pod_of (tbl : amap jstatic) (jid : positive) (e : positive * status) : list jpod :=
+  match alookup (fst e) tbl with
+  | Some x => if Pos.eqb (st_job x) jid then [mkJP (fst e) (snd e) (st_pset x) (st_req x) (st_reqv x)] else []
+  | None => []
+  end.
+Definition dump_pods (tbl : amap jstatic) (jid : positive) (d : jdump) : list jpod := flat_map (pod_of tbl jid) (jd_pods d).
+
+(** ** Correspondence *)
+Definition diff_ops (tbl : amap jstatic) (jid : positive) (j : jobb) (d : jdump) : list jop :=
+  flat_map (fun kv => if amem (fst kv) (jd_pods d) then [] else [JRemove (fst kv) (jp_status (snd kv))]) (jb_pods j)
+  ++ flat_map (fun e => match alookup (fst e) (jb_pods j) with
+                        | Some cur => if status_eqb (jp_status cur) (snd e) then [] else [JUpdate (fst e) (jp_status cur) (snd e)]
+                        | None => map JAdd (pod_of tbl jid e)
+                        end) (jd_pods d).
+
+Definition bool_list_eqb := list_eqb Bool.eqb.
+Definition z_list_eqb := list_eqb Z.eqb.
+
+Fixpoint idx_matches (i : ix) (ss : list status) (ds : list (list positive)) : bool :=
+  match ss, ds with
+  | [], [] => true
+  | s :: sr, ids :: dr =>
+      (ix_size s i =? Z.of_nat (List.length ids)) && forallb (fun id => ix_mem (s, id) i) ids && idx_matches i sr dr
+  | _, _ => false
+  end.
+
+Definition pset_matches (l : list jpod) (k : positive) (ps : psetb) (pd : psdump) : bool :=
+  let lk := filter (in_pset k) l in
+  (pb_min ps =? pd_min pd) && (Z.of_nat (List.length lk) =? pd_n pd)
+  && (pb_aa ps =? pd_aa pd) && (pb_au ps =? pd_au pd) && (pb_alive ps =? pd_alive pd)
+  && (ps_num_pending ps =? pd_pending pd) && (ps_num_gated ps =? pd_gated pd)
+  && Bool.eqb (ps_gang_satisfied ps) (pd_sat pd) && Bool.eqb (ps_ready ps) (pd_ready pd)
+  && Bool.eqb (pb_min ps <? Z.of_nat (List.length lk)) (pd_elastic pd).
+
+Fixpoint psets_match (l : list jpod) (a : amap psetb) (b : amap psdump) : bool :=
+  match a, b with
+  | [], [] => true
+  | (k, ps) :: r, (k', pd) :: r' => Pos.eqb k k' && pset_matches l k ps pd && psets_match l r r'
+  | _, _ => false
+  end.
+
+Definition jview_matches (j : jobb) (d : jdump) : bool :=
+  list_eqb (fun a b => Pos.eqb (fst a) (fst b) && status_eqb (snd a) (snd b))
+           (map (fun kv => (fst kv, jp_status (snd kv))) (jb_pods j)) (jd_pods d)
+  && (jb_active j =? jd_active d)
+  && idx_matches (jb_idx j) all_statuses (jd_idx d)
+  && req (jb_alloc j) (jd_alloc d) && req (jb_allocv j) (jd_allocv d)
+  && z_list_eqb [num_pending j; num_gated j; num_active_used j; num_allocated j; num_alive j; num_active_used j] (jd_nums d)
+  && bool_list_eqb [is_gang_satisfied j; is_ready j; is_stale j; should_pipeline j; is_elastic j] (jd_preds d)
+  && psets_match (pods_of j) (jb_psets j) (jd_psets d).
+
+Definition japply_list (j : jobb) (os : list jop) : jobb * bool :=
+  fold_left (fun a o => let '(j1, e) := japply (fst a) o in (j1, snd a || e)) os (j, false).
+
+Definition jstep_model (tbl : amap jstatic) (js : amap jobb) (s : jstep) : option (amap jobb * bool) :=
+  match alookup (js_job s) js with
+  | None => None
+  | Some j =>
+      let '(j1, err) := match js_ops s with
+                        | Some os => japply_list j os
+                        | None => (jrun j (diff_ops tbl (js_job s) j (js_dump s)), false)
+                        end in
+      Some (aset (js_job s) j1 js, Bool.eqb err (js_err s) && jview_matches j1 (js_dump s))
+  end.
+
+Fixpoint jsteps_agree (tbl : amap jstatic) (js : amap jobb) (ss : list jstep) : bool :=
+  match ss with
+  | [] => true
+  | s :: r => match jstep_model tbl js s with
+              | Some (js1, ok) => ok && jsteps_agree tbl js1 r
+              | None => false
+              end
+  end.
+
+Definition jinit (k : jcase) : amap jobb := map (fun kv => (fst kv, jb_init (snd kv))) (jc_mins k).
+Definition jmodel_agrees (k : jcase) : bool := jsteps_agree (jc_tbl k) (jinit k) (jc_steps k).
+
+(** ** Monitor: beliefs against the recomputation from the dumped pods *)
+Definition masked_eq (m a b : res) : bool :=
+  (cpu a =? cpu b) && (mem a =? mem b) && (gpu a =? gpu b)
+  && col_agree (pods m) (pods a) (pods b) && col_agree (mig m) (mig a) (mig b) && col_agree (ext m) (ext a) (ext b).
+
+Fixpoint idx_exact (l : list jpod) (ss : list status) (ds : list (list positive)) : bool :=
+  match ss, ds with
+  | [], [] => true
+  | s :: sr, ids :: dr => list_eqb Pos.eqb ids (rc_ids s l) && idx_exact l sr dr
+  | _, _ => false
+  end.
+
+Definition pset_exact (l : list jpod) (kv : positive * psdump) : bool :=
+  let lk := filter (in_pset (fst kv)) l in
+  let pd := snd kv in
+  (pd_n pd =? Z.of_nat (List.length lk))
+  && (pd_aa pd =? rc_active lk) && (pd_au pd =? rc_used lk) && (pd_alive pd =? rc_alive lk)
+  && (pd_pending pd =? rc_size Pending lk) && (pd_gated pd =? rc_size Gated lk)
+  && Bool.eqb (pd_sat pd) (pd_min pd <=? rc_used lk)
+  && Bool.eqb (pd_ready pd) (pd_min pd <=? rc_alive lk - rc_size Gated lk)
+  && Bool.eqb (pd_elastic pd) (pd_min pd <? Z.of_nat (List.length lk)).
+
+Definition preds_exact (l : list jpod) (d : jdump) : list bool :=
+  let sat kv := pd_min (snd kv) <=? rc_used (filter (in_pset (fst kv)) l) in
+  [ forallb sat (jd_psets d);
+    forallb (fun kv => let lk := filter (in_pset (fst kv)) l in pd_min (snd kv) <=? rc_alive lk - rc_size Gated lk) (jd_psets d);
+    (if 0 <? rc_size Succeeded l then false else if rc_used l =? 0 then false else existsb (fun kv => negb (sat kv)) (jd_psets d));
+    existsb (fun kv => should_pipeline_l (pd_min (snd kv)) (filter (in_pset (fst kv)) l)) (jd_psets d);
+    existsb (fun kv => pd_min (snd kv) <? Z.of_nat (List.length (filter (in_pset (fst kv)) l))) (jd_psets d) ].
+
+Definition dump_ok (mask : res) (tbl : amap jstatic) (jid : positive) (d : jdump) : bool :=
+  let l := dump_pods tbl jid d in
+  Nat.eqb (List.length l) (List.length (jd_pods d))
+  && forallb (fun p => amem (jp_pset p) (jd_psets d)) l
+  && (jd_active d =? rc_active l)
+  && idx_exact l all_statuses (jd_idx d)
+  && req (jd_alloc d) (rc_alloc l)
+  && masked_eq mask (jd_allocv d) (rc_allocv l)
+  && masked_eq mask (jd_alloc d) (jd_allocv d)
+  && z_list_eqb (jd_nums d) [rc_size Pending l; rc_size Gated l; rc_used l; cnt is_alloc l; rc_alive l; rc_used l]
+  && forallb (pset_exact l) (jd_psets d)
+  && bool_list_eqb (jd_preds d) (preds_exact l d).
+
+Definition jstep_ok (k : jcase) (s : jstep) : bool := dump_ok (jc_mask k) (jc_tbl k) (js_job s) (js_dump s).
+Definition jmonitor_ok (k : jcase) : bool := negb (jc_monitored k) || forallb (jstep_ok k) (jc_steps k).
+
+(** position of the first observation the monitor rejects (for reading a replay) *)
+Fixpoint first_bad {A} (f : A -> bool) (l : list A) (i : nat) : option nat :=
+  match l with [] => None | x :: r => if f x then first_bad f r (S i) else Some i end.
+Definition jmonitor_first_bad (k : jcase) : option nat := first_bad (jstep_ok k) (jc_steps k) 0.
+
+(** * Cases of both kinds *)
+Inductive case := CNode (k : ncase) | CJob (k : jcase).
+
+Definition model_agrees (c : case) : bool := match c with CNode k => nmodel_agrees k | CJob k => jmodel_agrees k end.
+Definition monitor_ok (c : case) : bool := match c with CNode k => nmonitor_ok k | CJob k => jmonitor_ok k end.
+Definition flags (c : case) : list nat := match c with CNode k => nflags k | CJob _ => [] end.
 Definition run_flags (cs : list (nat * case)) : list (nat * list nat) :=
   filter (fun p => negb (Nat.eqb (List.length (snd p)) 0)) (map (fun c => (fst c, flags (snd c))) cs).
 
